@@ -278,7 +278,8 @@ class _VersionIndependentUnmarshaller:
         n = unpack("<i", self.fp.read(4))[0]
         long = self.long_type
         if n == 0:
-            return long(0)
+            # a zero written as TYPE_LONG can carry FLAG_REF like any other
+            return self.r_ref(long(0), save_ref)
         size = abs(n)
         d = long(0)
         for j in range(0, size):
